@@ -70,6 +70,8 @@ StepEv(e) ==
         /\ (IF e.w THEN WriteSay(e.obj2, e.first) ELSE TRUE)
         /\ ok' = (ok /\ badi = {} /\ d = <<>> /\ e.pure /\ w))
     [] e.op = "base" -> UNCHANGED ok
+    [] e.op = "save_failed" ->   \* C05: a file the library loaded could not be saved again
+       Say("loaded-file-cannot-be-saved", "ok", e.outcome) /\ ok' = FALSE
     [] e.op = "edit" ->          \* C06: load, change one attribute, save, load: the change and only the change
        (IF e.outcome # "ok" THEN Say("edited-file-not-loadable", "ok", e.outcome) /\ ok' = FALSE
         ELSE LET exp == BlankVers(Norm(SetPath(base, e.path, e.value)))
